@@ -22,7 +22,7 @@ buildtb() { # $1 = dir
 demo() { # uses $W/_b and $W/_v
   case $ID in
     C02-*|C04-*|C05-*|C17-*|C07-*|C15-*) (cd "$S" && timeout 600 bash ./run_demo.sh "$W/_b") ;;
-    C03-*) buildtb _v && (cd "$S" && timeout 600 bash ./run_demo.sh "$W/_b" "$W/_v") ;;
+    C03-*|C06-*) buildtb _v && (cd "$S" && timeout 600 bash ./run_demo.sh "$W/_b" "$W/_v") ;;
     C12-*) (cd "$S" && timeout 600 bash ./run_demo.sh "$W" "$W/_b") ;;
     *) (cd "$S" && timeout 1200 bash ./run_demo.sh "$W") ;;
   esac
